@@ -151,7 +151,8 @@ def run_stream(ctx, only, corpus_prefix, max_reports=3):
     return found
 
 
-def replay(ctx, data, prop_modules):
+def replay(ctx, data, prop_modules, tables):
+    vlib.translate(ctx, tables)
     vlib.build_harness(ctx, ["http"])
     vlib.prove(ctx, prop_modules)
     table = routes()
